@@ -231,6 +231,11 @@ func (eb *EventBuilder) Build(
 	if err = checkNoDuplicateKeys(eventJSON); err != nil {
 		return
 	}
+	// ... nor one whose content is not an object, or whose signatures (the
+	// proto-event may bring some of other servers) are not a map of maps.
+	if err = checkUntrustedEventShape(eventJSON); err != nil {
+		return
+	}
 
 	res, err := eb.version.NewEventFromTrustedJSON(eventJSON, false)
 	if err != nil {
